@@ -709,6 +709,7 @@ int vorbis_synthesis_restart(vorbis_dsp_state *v){
   v->sequence=-1;
   v->eofflag=0;
   ((private_state *)(v->backend_state))->sample_count=-1;
+  ((private_state *)(v->backend_state))->lapout_done=0;
 
   return(0);
 }
@@ -756,6 +757,8 @@ int vorbis_synthesis_blockin(vorbis_dsp_state *v,vorbis_block *vb){
 
     int thisCenter;
     int prevCenter;
+
+    b->lapout_done=0;
 
     v->glue_bits+=vb->glue_bits;
     v->time_bits+=vb->time_bits;
@@ -977,12 +980,26 @@ int vorbis_synthesis_lapout(vorbis_dsp_state *v,float ***pcm){
   codec_setup_info *ci=vi->codec_setup;
   int hs=ci->halfrate_flag;
 
+  private_state *b=v->backend_state;
+
   int n=ci->blocksizes[v->W]>>(hs+1);
   int n0=ci->blocksizes[0]>>(hs+1);
   int n1=ci->blocksizes[1]>>(hs+1);
   int i,j;
 
   if(v->pcm_returned<0)return 0;
+
+  /* a second call with no block decoded in between (two lapped seeks in
+     a row at the end of a stream, say): the buffer is already contiguous
+     and ends at n1+n; moving it again would run pcm_returned past it */
+  if(b->lapout_done){
+    if(pcm){
+      for(i=0;i<vi->channels;i++)
+        v->pcmret[i]=v->pcm[i]+v->pcm_returned;
+      *pcm=v->pcmret;
+    }
+    return(n1+n-v->pcm_returned);
+  }
 
   /* nothing ahead of the last block's center is left to return (in
      particular: only one block has been decoded since init/restart).
@@ -1053,6 +1070,8 @@ int vorbis_synthesis_lapout(vorbis_dsp_state *v,float ***pcm){
       v->pcm_current+=n1-n0;
     }
   }
+
+  b->lapout_done=1;
 
   if(pcm){
     int i;
